@@ -408,3 +408,28 @@ fn body_ring_contains_line_rotation(n: usize, k: usize, lat: i16) {
 }
 k_harness12!(c02_k_ring_contains_line_rot_5_1, body_ring_contains_line_rotation(5, 1, 3));
 k_harness12!(c02_k_ring_contains_line_rot_5_2, body_ring_contains_line_rotation(5, 2, 3));
+
+/// K twin of C02.V.polygon_position: a literal 8x8 shell with a 2x2 hole, every lattice query point, through
+/// the accumulator interface (is_inside may only be set, boundary_count only incremented) and the public API
+#[cfg(kani)]
+#[kani::proof]
+#[kani::unwind(8)]
+fn c02_k_polygon_with_hole_pos() {
+    let c = |x: i16, y: i16| Coord { x, y };
+    let poly = Polygon::new(LineString(vec![c(0, 0), c(8, 0), c(8, 8), c(0, 8), c(0, 0)]), vec![LineString(vec![c(2, 2), c(2, 4), c(4, 4), c(4, 2), c(2, 2)])]);
+    let p = lat_coord_i16(9);
+    let shell = spec::rect_pos(sp(p), spec::P { x: 0, y: 0 }, spec::P { x: 8, y: 8 });
+    let hole = spec::rect_pos(sp(p), spec::P { x: 2, y: 2 }, spec::P { x: 4, y: 4 });
+    let want = if shell == spec::Pos::Outside { spec::Pos::Outside } else if shell == spec::Pos::OnBoundary || hole == spec::Pos::OnBoundary { spec::Pos::OnBoundary }
+        else if hole == spec::Pos::Inside { spec::Pos::Outside } else { spec::Pos::Inside };
+    let inside0: bool = kani::any();
+    let count0: usize = kani::any();
+    kani::assume(count0 < 10);
+    let (mut inside, mut count) = (inside0, count0);
+    poly.calculate_coordinate_position(&p, &mut inside, &mut count);
+    assert!(inside == (inside0 || want == spec::Pos::Inside));
+    assert!(count == count0 + if want == spec::Pos::OnBoundary { 1 } else { 0 });
+    assert!(pos_eq(poly.coordinate_position(&p), want));
+    assert!(poly.contains(&p) == (want == spec::Pos::Inside) && poly.intersects(&p) == (want != spec::Pos::Outside));
+    kani::cover!(hole == spec::Pos::Inside, "inside the hole");
+}
